@@ -223,10 +223,18 @@ def main(tier, only=None):
                         for bit in ((0, 7) if dense else (3,)):
                             jobs.append((name, kind, oid, off, bit))
                 cover.setdefault(kind, [0, 0]); cover[kind][0] += 1; cover[kind][1] += sum(len(range(s, e, step)) for s, e in ranges)
+        # geometry family (vlib/geom.py): one checksum-only bit flip in EVERY in-use inode of filesystems whose inode tables have every size 1..18 blocks per group
+        from vlib import geom
+        gb = geom.build_geom(quick)
+        for name in gb:
+            for mid, parts in geom.inode_mutants(name):
+                if 'i_atime' in mid:
+                    jobs.append((name, 'inode', int(mid.split('/ino')[1].split('.')[0]), parts[0][0], 0))
+        cover['geometry_family_images'] = len(gb)
         res = pmap(flip_job, jobs, chunksize=32)
         n = 0
         masked = {}
-        for name in bases:
+        for name in bases + gb:
             img = Image(fsweep.base_data(name)); m = set()
             for g in range(img.groups):
                 gd = img.gd[g]
